@@ -77,10 +77,40 @@ func startDaemon(tlsRequired bool) *daemon {
 		opts.TLSRequired = nsqd.TLSRequired
 	}
 	n, err := nsqdlib.Start(opts)
+	for try := 0; err != nil && try < 20 && strings.Contains(err.Error(), "address already in use"); try++ {
+		// the ephemeral port range is shared with every other check running on the machine
+		time.Sleep(500 * time.Millisecond)
+		n, err = nsqdlib.Start(opts)
+	}
 	if err != nil {
 		lib.Fatalf("start nsqd: %v", err)
 	}
 	return &daemon{n: n, httpAddr: n.RealHTTPAddr().String(), tcpAddr: n.RealTCPAddr().String(), tls: tlsRequired}
+}
+
+// closeHard closes a client connection with an RST (SO_LINGER 0) once the exchange is over,
+// so that the thousands of short connections of a run leave no TIME_WAIT sockets behind
+// (several checks run on this machine at once and share the ephemeral port range).
+func closeHard(conn net.Conn) {
+	if tc, ok := conn.(*net.TCPConn); ok {
+		tc.SetLinger(0)
+	}
+	conn.Close()
+}
+
+// dial connects to a loopback listener, waiting out a momentary exhaustion of the shared
+// ephemeral port range.
+func dial(addr string) (net.Conn, error) {
+	var conn net.Conn
+	var err error
+	for try := 0; try < 40; try++ {
+		conn, err = net.DialTimeout("tcp", addr, 5*time.Second)
+		if err == nil || !(strings.Contains(err.Error(), "cannot assign requested address") || strings.Contains(err.Error(), "address already in use")) {
+			return conn, err
+		}
+		time.Sleep(250 * time.Millisecond)
+	}
+	return conn, err
 }
 
 // ------------------------------------------------------------------ raw HTTP
@@ -161,11 +191,11 @@ func tokenOf(status int, ctype string, body []byte) string {
 }
 
 func doRaw(addr string, rs ReqSpec) RespObs {
-	conn, err := net.DialTimeout("tcp", addr, 5*time.Second)
+	conn, err := dial(addr)
 	if err != nil {
 		return RespObs{Err: err.Error()}
 	}
-	defer conn.Close()
+	defer closeHard(conn)
 	conn.SetDeadline(time.Now().Add(20 * time.Second))
 	if _, err := conn.Write(wireRequest(rs)); err != nil {
 		return RespObs{Err: err.Error()}
@@ -576,11 +606,11 @@ func frame(conn net.Conn) (ftype int32, data []byte, err error) {
 // tcpSend writes one command (line + payload) after the magic, half-closes, and returns
 // the code (first word) of the first response or error frame.
 func tcpSend(addr string, line []byte, payload []byte) string {
-	conn, err := net.DialTimeout("tcp", addr, 5*time.Second)
+	conn, err := dial(addr)
 	if err != nil {
 		lib.Fatalf("tcp dial: %v", err)
 	}
-	defer conn.Close()
+	defer closeHard(conn)
 	conn.SetDeadline(time.Now().Add(10 * time.Second))
 	var b bytes.Buffer
 	b.WriteString("  V2")
@@ -610,11 +640,11 @@ func consume(addr, topic, channel string, n int) [][]byte {
 	if n <= 0 {
 		return got
 	}
-	conn, err := net.DialTimeout("tcp", addr, 5*time.Second)
+	conn, err := dial(addr)
 	if err != nil {
 		lib.Fatalf("tcp dial: %v", err)
 	}
-	defer conn.Close()
+	defer closeHard(conn)
 	conn.SetDeadline(time.Now().Add(10 * time.Second))
 	fmt.Fprintf(conn, "  V2SUB %s %s\nRDY %d\n", topic, channel, n)
 	for len(got) < n {
@@ -853,6 +883,21 @@ func startSubproc() *subproc {
 	if _, err := os.Stat(bin); err != nil {
 		return nil
 	}
+	for try := 0; ; try++ {
+		sp, retry := startSubprocOnce(bin)
+		if sp != nil {
+			return sp
+		}
+		if !retry || try >= 20 {
+			lib.Fatalf("nsqd binary did not report its listeners")
+		}
+		time.Sleep(500 * time.Millisecond)
+	}
+}
+
+// startSubprocOnce: (nil, true) when the daemon could not bind a port (shared ephemeral
+// range exhausted for a moment) and starting again is the right thing to do.
+func startSubprocOnce(bin string) (*subproc, bool) {
 	dir, err := os.MkdirTemp(nsqdlib.ScratchDir(), "hostile-")
 	if err != nil {
 		lib.Fatalf("mkdtemp: %v", err)
@@ -868,11 +913,18 @@ func startSubproc() *subproc {
 	}
 	sp := &subproc{cmd: cmd, dir: dir, exited: make(chan struct{})}
 	ready := make(chan struct{})
+	bindFailed := make(chan struct{}, 1)
 	go func() {
 		sc := bufio.NewScanner(stderr)
 		sc.Buffer(make([]byte, 1<<20), 1<<20)
 		signalled := false
 		for sc.Scan() {
+			if strings.Contains(sc.Text(), "address already in use") {
+				select {
+				case bindFailed <- struct{}{}:
+				default:
+				}
+			}
 			if m := listenRe.FindStringSubmatch(sc.Text()); m != nil {
 				if m[1] == "TCP" {
 					sp.tcpAddr = m[2]
@@ -888,16 +940,23 @@ func startSubproc() *subproc {
 	}()
 	select {
 	case <-ready:
+	case <-bindFailed:
+		cmd.Process.Kill()
+		cmd.Wait()
+		os.RemoveAll(dir)
+		return nil, true
 	case <-time.After(30 * time.Second):
 		cmd.Process.Kill()
-		lib.Fatalf("nsqd binary did not report its listeners")
+		cmd.Wait()
+		os.RemoveAll(dir)
+		return nil, false
 	}
 	go func() {
 		// (after the listeners were reported: the stderr reader has what it needs)
 		cmd.Wait()
 		close(sp.exited)
 	}()
-	return sp
+	return sp, false
 }
 
 func (sp *subproc) hasExited() bool {
@@ -917,11 +976,11 @@ func (sp *subproc) stop() {
 
 // rawStatus sends bytes and returns the status code of the first response (0 = none).
 func rawStatus(addr string, data []byte, halfClose bool) int {
-	conn, err := net.DialTimeout("tcp", addr, 5*time.Second)
+	conn, err := dial(addr)
 	if err != nil {
 		return -1
 	}
-	defer conn.Close()
+	defer closeHard(conn)
 	conn.SetDeadline(time.Now().Add(3 * time.Second))
 	conn.Write(data)
 	if halfClose {
